@@ -5,7 +5,7 @@ from . import runprog as R
 PROP = "C03"
 CORR = "Corr.C03"
 REQUIRES = ["Gen.Handlers", "Model.Run", "Spec.Run", "Spec.C03"]
-PROOF_FILES = ["Proof/RunCore.v", "Proof/C03.v"]
+PROOF_FILES = ["Proof/RunCore.v", "Proof/RunExtra.v", "Proof/RunTable.v", "Proof/RunVerdict.v", "Proof/C03.v"]
 MANIFEST = {
     "text": "Coq theorems over all finite test programs (ordered combinations of exception kinds across setUp, test, "
             "tearDown and nested cleanups, MultipleExceptions, custom classes with user-inserted handlers also for "
@@ -39,6 +39,7 @@ EXPLANATION = ("Theorems in coq/Props/C03.v over all programs; correspondence: T
                "the outcome kind and wasSuccessful().")
 
 FEATS = frozenset(["fixture", "details", "onexc"])
+FEATS_INS = frozenset(["insert", "insert-any", "fixture"])   # handlers (any class) inserted while the test runs
 
 
 def drive(case):
@@ -57,7 +58,8 @@ def perturb(case, o):
 
 def nontrivial(case):
     p = case["prog"]
-    return len(R.raising_acts(p)) >= 2 or bool(p["handlers"])
+    return (len(R.raising_acts(p)) >= 2 or bool(p["handlers"])
+            or any(a[0] == "inserthandler" for a in R.all_acts(p)))
 
 
 HANDLER_SETS = [
@@ -90,6 +92,14 @@ def generate(rng, tier):
         R.mkprog(xfail=True, body=[]),
         R.mkprog(body=[["raise", E(R.CUSTOMSUB)]], handlers=[(R.CUSTOMSUB, "uxsuccess"), (R.CUSTOM, "failure")]),
         R.mkprog(body=[["raise", E(R.CUSTOMSUB)]], handlers=[(R.CUSTOM, "failure"), (R.CUSTOMSUB, "uxsuccess")]),
+        # handlers inserted while the test runs: the latest insertion is consulted first, also when it is
+        # made after the exception was caught
+        R.mkprog(body=[["inserthandler", R.CUSTOM, "skip"], ["inserthandler", R.CUSTOMSUB, "failure"],
+                       ["raise", E(R.CUSTOMSUB)]]),
+        R.mkprog(setup=[["cleanup", 10, [["inserthandler", "ValueError", "xfail"]]]], body=[["raise", E("ValueError")]]),
+        R.mkprog(body=[["raise", E("Kbd")]], teardown=[["inserthandler", "BaseException", "uxsuccess"]]),
+        R.mkprog(body=[["inserthandler", "Kbd", "skip"], ["raise", E("Kbd")]], teardown=[["raise", E("Fail")]],
+                 handlers=[("Kbd", "failure")]),
     ]
     cases += [{"prog": p} for p in fixed]
     names = list(R.ALLB)
@@ -116,7 +126,8 @@ def generate(rng, tier):
                                        handlers=HANDLER_SETS[k % len(HANDLER_SETS)])})
     n = 1200 if tier == "quick" else 40000
     for _ in range(n):
-        p = R.rand_prog(rng, feats=FEATS if rng.random() < 0.4 else frozenset(), p_raise=rng.choice([0.4, 0.6, 0.9]))
+        p = R.rand_prog(rng, feats=rng.choice([FEATS, FEATS, frozenset(), frozenset(), FEATS_INS]),
+                        p_raise=rng.choice([0.4, 0.6, 0.9]))
         cases.append({"prog": p})
     return cases
 
